@@ -59,6 +59,9 @@ def run_impl(kind, version, extra_pairs, local, config, outcome, hint):
             raise c08.make(outcome[4:], c08.lib_classes(), 'lib failed z', -2, 'um', 'sid')
         if outcome == 'other2':
             raise TypeError('boom y')
+        if outcome.startswith('builtin:'):
+            import builtins
+            raise getattr(builtins, outcome[8:])('boom y')
         raise RuntimeError('boom y')
     obs = {}
     with fixture.patched() as env:
@@ -109,13 +112,14 @@ def run(ctx, res):
                 'x config file set or not x hint present or not; each followed by a real CLOSE request; non-trivial = distinct (kind, version, outcome, parameter shape)' % len(VERSIONS))
     cases = []
     outcomes = ['ret', 'provider', 'other', 'other2']
+    BUILTINS = ['ValueError', 'KeyError', 'OSError', 'LookupError', 'ArithmeticError', 'AttributeError', 'IndexError', 'StopIteration', 'AssertionError', 'NotImplementedError']
     OTHER_LIB = {'meta': ['DataProviderError', 'FailureError', 'CreditsError', 'AccessError', 'NotificationError'],
                  'data': ['MetadataProviderError', 'FailureError', 'SubscribeError', 'CreditsError']}
     nvar = 2 if ctx.tier == 'quick' else 80
     for kind in ('meta', 'data'):
         for v in VERSIONS:
-            for oc in outcomes + (['lib:' + c for c in OTHER_LIB[kind]] if v in ('1.8.3', '1.9.1', None, '2.0.0') else []):
-                for k in range(nvar if not oc.startswith('lib:') else 1):
+            for oc in outcomes + ((['lib:' + c for c in OTHER_LIB[kind]] + ['builtin:' + c for c in BUILTINS]) if v in ('1.8.3', '1.9.1', None, '2.0.0') else []):
+                for k in range(nvar if ':' not in oc else 1):
                     extra = [(g.text(allow_none=False), g.text()) for _ in range(rng.choice([0, 1, 3]))]
                     local = None
                     if k % 2 == 1 or rng.random() < 0.3:
@@ -144,6 +148,9 @@ def run(ctx, res):
             o = [sym('raise'), [sym('exn'), [sym('lib'), sym('MetadataProviderError' if kind == 'meta' else 'DataProviderError')], b'init failed|x', A(0), sym('none'), sym('none')]]
         elif oc.startswith('lib:'):
             o = [sym('raise'), [sym('exn'), [sym('lib'), sym(oc[4:])], b'lib failed z', A(-2), [sym('str'), b'um'], [sym('str'), b'sid']]]
+        elif oc.startswith('builtin:'):
+            import builtins
+            o = [sym('raise'), [sym('exn'), sym('foreign'), str(getattr(builtins, oc[8:])('boom y')).encode(), A(0), sym('none'), sym('none')]]
         else:
             o = [sym('raise'), [sym('exn'), sym('foreign'), b'boom y', A(0), sym('none'), sym('none')]]
         lp = sym('none') if local is None else [sym('some'), wire.sx_pairs(list(local.items()))]
@@ -224,6 +231,9 @@ def run(ctx, res):
                         r = ari.error(body)
                         want = ({'meta': 'M', 'data': 'D'}[kind]) if oc == 'provider' else None
                         wmsg = 'init failed|x' if oc == 'provider' else ('lib failed z' if oc.startswith('lib:') else 'boom y')
+                        if oc.startswith('builtin:'):
+                            import builtins
+                            wmsg = str(getattr(builtins, oc[8:])('boom y'))
                         if r['method'] != meth or r['subtype'] != want or r['msg'] != wmsg:
                             bad = 'failing initialize: reply %r, expected subtype %r' % (body, want)
                         if obs['listener']:
